@@ -44,6 +44,18 @@ claim("C20", "other",
       "decision-table extraction from MIR + call/field-use inventories",
       "DESIGN.md §3 C20")
 
+claim("C02", "other",
+      "Necessary inductive-step conditions decided on extracted tables: the receiver's per-key-value step stores a mutation iff "
+      "version > pre-apply max and not (tombstone and version <= watermark), verbatim (all copy/delta orderings 0..4 x version x "
+      "kind); a reset wipes to an empty map before the loop; admission is epoch-consistent except for the one ordering class "
+      "recorded as known finding KF-1 (reproduced during design; any other class is a violation); the sender resets whenever "
+      "the peer is behind its watermark.",
+      "The invariant over all reachable global states is NOT decided (no sound static argument in reach): relays through "
+      "several stale peers, GC timing, histories. The rules are necessary conditions whose violation yields a concrete "
+      "resurrection/loss history class. BTreeMap semantics assumed.",
+      "decision-table extraction from MIR + ordering enumeration; known finding by abstract ordering class",
+      "DESIGN.md §3 C02")
+
 ALL = ["C%02d" % i for i in range(1, 21)]
 PENDING_REASON = "check under construction in this session (rules designed in DESIGN.md §3, not yet armed)"
 
